@@ -1,3 +1,4 @@
+import KrakenModel.Model.ConnState
 /-
   Model of what a peer does with input from a remote peer (C14).  Three parts, each with explicit
   outcomes (`panic …` is an outcome, never a default):
@@ -14,7 +15,7 @@
 
   `rep = true` is the code as repaired by the `fix:` commits (nil sub-message guards, piece index
   validation in the dispatcher and the storage layer, piece payload length bounded by the torrent's
-  piece length, handshake bitfields limited to the bytes they carry and to the torrent's piece count),
+  piece length, handshake bitfields limited to the bytes they carry, to the torrent's piece count and to bits below their own length),
   `rep = false` the code as it was.  All integer fields of messages are arbitrary `Int`s.
 -/
 namespace KrakenModel.PeerInput
@@ -81,6 +82,9 @@ structure BfBytes where
   short : Bool
   bits : Nat
   bytes : Nat
+  /-- positions of the bits that are set in the received words (the decoder copies whole 64-bit words and
+      does not clear the last one beyond the declared length, so these may lie at or beyond `bits`) -/
+  setBits : List Nat := []
   deriving Repr, DecidableEq
 
 structure HsIn where
@@ -96,15 +100,15 @@ structure HsIn where
 def words (bits : Nat) : Nat := (bits + 63) / 64
 
 /-- `bitset.UnmarshalBinary` (behind the length guard when `rep`): result length, allocations -/
-def unmarshalBitfield (rep : Bool) (b : BfBytes) : Option Nat × List Nat :=
+def unmarshalBitfield (rep : Bool) (b : BfBytes) : Option (Nat × List Nat) × List Nat :=
   if b.short then (none, [])
   else if rep && decide (b.bits > 8 * b.bytes) then (none, [])
   else if b.bytes < 8 * words b.bits then (none, [8 * words b.bits, 8 * words b.bits])
-  else (some b.bits, [8 * words b.bits, 8 * words b.bits])
+  else (some (b.bits, b.setBits), [8 * words b.bits, 8 * words b.bits])
 
 structure HsRes where
-  /-- `some len`: accepted, bitfield of that length -/
-  out : Option Nat
+  /-- `some (len, bits)`: accepted, a bitfield of that length with these bits set -/
+  out : Option (Nat × List Nat)
   allocs : List Nat
   deriving Repr, DecidableEq
 
@@ -211,7 +215,7 @@ def complete (s : DState) : Bool := (List.range s.np).all (· ∈ s.pieces)
 
 /-- `Dispatcher.addPeer` with a handshake bitfield of length `len` and set bits `bits` -/
 def addPeer (rep : Bool) (s : DState) (k : Nat) (len : Nat) (bits : List Nat) : DRes :=
-  if rep && decide (len > s.np) then ⟨s, .err, []⟩
+  if rep && (decide (len > s.np) || bits.any (fun b => decide (len ≤ b))) then ⟨s, .err, []⟩
   else match s.peers k with
     | some _ => ⟨s, .err, []⟩
     | none =>
@@ -220,6 +224,20 @@ def addPeer (rep : Bool) (s : DState) (k : Nat) (len : Nat) (bits : List Nat) : 
       match bits.find? (fun i => decide (s.np ≤ i)) with
       | some _ => ⟨s1, .panic "addPeer: numPeersByPiece index out of range", []⟩
       | none => ⟨bits.foldl bump s1, .ok .none, bits.map (fun i => .count (Int.ofNat i))⟩
+
+def unbump (s : DState) (i : Nat) : DState :=
+  { s with cnt := fun j => if j = i then s.cnt j - 1 else s.cnt j }
+
+/-- `Dispatcher.removePeer` (the feed loop calls it when the peer's connection ended): the peer is dropped
+and `numPeersByPiece` is decremented for every set bit of its bitfield -/
+def removePeer (s : DState) (k : Nat) : DRes :=
+  match s.peers k with
+  | none => ⟨s, .err, []⟩
+  | some p =>
+    let s1 := { s with peers := fun j => if j = k then none else s.peers j }
+    match p.bits.find? (fun i => decide (s.np ≤ i)) with
+    | some _ => ⟨s1, .panic "removePeer: numPeersByPiece index out of range", []⟩
+    | none => ⟨p.bits.foldl unbump s1, .ok .none, p.bits.map (fun i => .count (Int.ofNat i))⟩
 
 /-- `d.complete()`: connections to peers whose bitfield is complete are closed -/
 def closeCompletePeers (s : DState) : DState :=
@@ -272,5 +290,44 @@ def dispatch (rep : Bool) (s : DState) (k : Nat) (m : Msg) : DRes :=
         let s1 := { s with pieces := insertSorted i.toNat s.pieces }
         let s2 := if complete s1 then closeCompletePeers s1 else s1
         ⟨s2, .ok .none, [.write i actual]⟩
+
+-- ------------------------------------------------------------------------------ scheduler: incoming handshake
+
+/-- one incoming connection attempt as the scheduler sees it: the peer id, the info hash the handshake
+claims, the info hash of the torrent its Name (digest) designates on this agent (`none`: no such torrent),
+whether the message decodes at all and whether the dispatcher accepts the bitfield -/
+structure InConn where
+  peer : Nat
+  claim : Nat
+  real : Option Nat
+  decodable : Bool
+  bfOk : Bool
+  deriving Repr, DecidableEq
+
+inductive InRes where
+  | acceptFail | rejected | failed | active | connRejected
+  deriving Repr, DecidableEq
+
+open KrakenModel.ConnState in
+/-- `Handshaker.Accept` → `incomingHandshakeEvent.apply` (AddPending under the CLAIMED hash) →
+`establishIncomingHandshake` (Stat by digest; the conn is built for the torrent's REAL hash) →
+`incomingConnEvent.apply` / `failedIncomingHandshakeEvent.apply`, over Model.ConnState.  `cid` is the
+identity of the conn that gets established.  The repaired code (`rep`) fails the handshake when the claimed
+hash is not the torrent's; the code as it was went on, `MovePendingToActive` failed for the real hash and
+the pending entry of the claimed hash was never released. -/
+def incoming (rep : Bool) (cfg : Config) (s : State) (cid : Nat) (i : InConn) : State × InRes :=
+  if !i.decodable then (s, .acceptFail) else
+  match addPending cfg s i.peer i.claim [] with
+  | (s1, .ok) =>
+    match i.real with
+    | none => (deletePending s1 i.peer i.claim, .failed)
+    | some r =>
+      if rep && r != i.claim then (deletePending s1 i.peer i.claim, .failed)
+      else
+        let c : Conn := ⟨cid, r, i.peer, false⟩
+        match movePendingToActive s1 c with
+        | (s2, .ok) => if i.bfOk then (s2, .active) else (connClosed cfg s2 c, .connRejected)
+        | (s2, _) => (connClosed cfg s2 c, .connRejected)
+  | (s1, _) => (s1, .rejected)
 
 end KrakenModel.PeerInput
